@@ -13,13 +13,6 @@ import (
 
 func init() { factFns["C11"] = factsC11 }
 
-func strList(items []string) string {
-	q := make([]string, len(items))
-	for i, s := range items {
-		q[i] = "\"" + coqEscape(s) + "\"%string"
-	}
-	return "[" + strings.Join(q, "; ") + "]"
-}
 
 // chanMakes lists "name:cap" for every `name := make(chan T[, cap])` in fn, in source order.
 func chanMakes(f *file, fd *ast.FuncDecl) []string {
